@@ -15,8 +15,9 @@ Open Scope char_scope.
 Section Lexical.
 Variable v : ver.
 Hypothesis Hjit : vjit v = false.
-Variable st : QuoteMore.style.
-Notation pexp := (Fmt0.pexp st).
+Variable cf : cfg0.
+Notation sty := (style0 cf).
+Notation pexp := (Fmt0.pexp cf).
 Notation adj_ok := (LexAdj.adj_ok).
 Notation wf_tok := (LexAdj.wf_tok v).
 
@@ -26,9 +27,9 @@ Fixpoint fc (e : exp) : ascii :=
   match e with
   | ENil => "n" | ETrue => "t" | EFalse => "f" | EVararg => "."
   | ENum s => hd0 (Number.number_rewrite s)
-  | EStr s => match QuoteMore.choose st s with QS => "'" | QD => """" end
+  | EStr s => match QuoteMore.choose sty s with QS => "'" | QD => """" end
   | EName n => hd0 n
-  | EField p _ | EIndex p _ | ECall p _ | EMethod p _ _ => fc p
+  | EField p _ | EIndex p _ | ECall p _ _ | EMethod p _ _ _ => fc p
   | EUn Neg _ => "-" | EUn Not _ => "n" | EUn Len _ => "#" | EUn BNot _ => "~"
   | EBin _ l _ => fc l
   | EParen _ => "(" | ETable _ => "{"
@@ -41,7 +42,7 @@ Lemma good_ne c x : good x = false -> good c = true -> Ascii.eqb c x = false.
 Proof. intros Hx Hc. destruct (Ascii.eqb c x) eqn:E; [|reflexivity]. apply Ascii.eqb_eq in E. subst. rewrite Hx in Hc. discriminate. Qed.
 
 Definition prefixlike (e : exp) : bool :=
-  match e with EName _ | EParen _ | EField _ _ | EIndex _ _ | ECall _ _ | EMethod _ _ _ => true | _ => false end.
+  match e with EName _ | EParen _ | EField _ _ | EIndex _ _ | ECall _ _ _ | EMethod _ _ _ _ => true | _ => false end.
 Definition isfield (e : exp) : bool := match e with FPos _ | FNamed _ _ | FKey _ _ => true | _ => false end.
 Definition wf_name (n : bytes) : Prop := wf_ident n /\ is_keyword v n = false.
 Definition wf_bop (b : bop) : bool :=
@@ -55,8 +56,8 @@ Fixpoint wfe (e : exp) : Prop :=
   | EName n => wf_name n
   | EField p n => wfe p /\ prefixlike p = true /\ wf_name n
   | EIndex p k => wfe p /\ prefixlike p = true /\ wfe k /\ isfield k = false
-  | ECall f args => wfe f /\ prefixlike f = true /\ all args false
-  | EMethod o m args => wfe o /\ prefixlike o = true /\ wf_name m /\ all args false
+  | ECall f sg args => wfe f /\ prefixlike f = true /\ all args false
+  | EMethod o m sg args => wfe o /\ prefixlike o = true /\ wf_name m /\ all args false
   | EUn u x => wfe x /\ isfield x = false /\ match u with Neg => Ascii.eqb (fc x) "-" = false | Not | Len => True | BNot => False end
   | EBin b l r => wf_bop b = true /\ wfe l /\ isfield l = false /\ wfe r /\ isfield r = false
   | EParen x => wfe x /\ isfield x = false
@@ -96,7 +97,7 @@ Proof.
   induction e; intros nx W; cbn [Fmt0.pexp fc]; try reflexivity.
   - cbn [wfe] in W. destruct s as [|c0 s']; [contradiction|]. destruct (wf_decimal_digit _ _ W) as [D _].
     rewrite (number_rewrite_digit c0 s' D). reflexivity.
-  - unfold pstr. destruct (QuoteMore.choose st s); reflexivity.
+  - unfold pstr. destruct (QuoteMore.choose sty s); reflexivity.
   - destruct (wf_name_hd n W) as (c & r & E & _). subst. reflexivity.
   - destruct W as (W & _). rewrite nextc_app_ne by apply pexp_ne. apply IHe. exact W.
   - destruct W as (W & _). rewrite nextc_app_ne by apply pexp_ne. apply IHe1. exact W.
@@ -114,7 +115,7 @@ Proof.
   - cbn [wfe] in W. destruct s as [|c0 s']; [contradiction|]. destruct (wf_decimal_digit _ _ W) as [D _].
     rewrite (number_rewrite_digit c0 s' D). cbn [hd0]. unfold good. rewrite D. apply orb_true_iff. left. apply orb_true_iff. left. apply orb_true_iff. left.
     apply orb_true_iff. left. apply orb_true_iff. left. apply orb_true_iff. left. apply orb_true_iff. left. apply orb_true_r.
-  - destruct (QuoteMore.choose st s); reflexivity.
+  - destruct (QuoteMore.choose sty s); reflexivity.
   - destruct (wf_name_hd n W) as (c & r & E & I). subst. cbn [hd0]. unfold good. rewrite I. reflexivity.
   - destruct W as (W & P & _). apply IHe; [exact W|]. destruct e; try discriminate; reflexivity.
   - destruct W as (W & P & _). apply IHe1; [exact W|]. destruct e1; try discriminate; reflexivity.
@@ -184,6 +185,13 @@ Proof.
   change (commas (x :: y :: r')) with (x ++ kw "," :: sp :: commas (y :: r')).
   apply Forall_app. split; [exact Hx|]. constructor; [apply wf_kw_sym; reflexivity|]. constructor; [apply wf_sp|exact IH].
 Qed.
+Lemma wf_pargs b xs : Forall wf_tok xs -> Forall wf_tok (pargs cf b xs).
+Proof.
+  intros H. unfold pargs, gap_call, gap_sugar. destruct b.
+  - constructor; [|exact H]. right. right. destruct (CallForm.space_call (space0 cf)); (split; [discriminate|reflexivity]).
+  - apply Forall_app. split; [destruct (CallForm.space_call (space0 cf)); [constructor; [apply wf_sp|constructor]|constructor]|].
+    constructor; [apply wf_kw_sym; reflexivity|]. apply Forall_app. split; [exact H|constructor; [apply wf_kw_sym; reflexivity|constructor]].
+Qed.
 Lemma wf_toks_pexp : forall e, wfe e -> Forall wf_tok (pexp e).
 Proof.
   induction e using exp_ind'; intros W; cbn [Fmt0.pexp].
@@ -193,16 +201,15 @@ Proof.
   - repeat constructor.
   - cbn [wfe] in W. destruct s as [|c0 s']; [contradiction|]. destruct (wf_decimal_digit _ _ W) as [D _].
     rewrite (number_rewrite_digit c0 s' D). constructor; [exact W|constructor].
-  - constructor; [|constructor]. unfold pstr. cbn [wfe] in W. specialize (W (QuoteMore.choose st s)). destruct (QuoteMore.choose st s); cbn [qkind_of LexAdj.wf_tok]; (split; [reflexivity|exact W]).
+  - constructor; [|constructor]. unfold pstr. cbn [wfe] in W. specialize (W (QuoteMore.choose sty s)). destruct (QuoteMore.choose sty s); cbn [qkind_of LexAdj.wf_tok]; (split; [reflexivity|exact W]).
   - constructor; [exact W|constructor].
   - destruct W as (W & _ & N). apply Forall_app. split; [apply IHe; exact W|]. constructor; [apply wf_kw_sym; reflexivity|]. constructor; [exact N|constructor].
   - destruct W as (W1 & _ & W2 & _). apply Forall_app. split; [apply IHe1; exact W1|]. constructor; [apply wf_kw_sym; reflexivity|].
     apply Forall_app. split; [apply IHe2; exact W2|]. constructor; [apply wf_kw_sym; reflexivity|constructor].
-  - destruct W as (W1 & _ & W2). apply Forall_app. split; [apply IHe; exact W1|]. constructor; [apply wf_kw_sym; reflexivity|].
-    apply Forall_app. split; [|constructor; [apply wf_kw_sym; reflexivity|constructor]].
+  - destruct W as (W1 & _ & W2). apply Forall_app. split; [apply IHe; exact W1|]. apply wf_pargs.
     apply wf_commas. apply Forall_map. apply wfl_Forall in W2. rewrite Forall_forall in *. intros x Hx. apply H; [exact Hx|]. apply (W2 x Hx).
   - destruct W as (W1 & _ & N & W2). apply Forall_app. split; [apply IHe; exact W1|]. constructor; [apply wf_kw_sym; reflexivity|]. constructor; [exact N|].
-    constructor; [apply wf_kw_sym; reflexivity|]. apply Forall_app. split; [|constructor; [apply wf_kw_sym; reflexivity|constructor]].
+    apply wf_pargs.
     apply wf_commas. apply Forall_map. apply wfl_Forall in W2. rewrite Forall_forall in *. intros x Hx. apply H; [exact Hx|]. apply (W2 x Hx).
   - destruct W as (W & _ & U). apply Forall_app. split; [|apply IHe; exact W]. destruct u; cbn [uop_toks]; try contradiction.
     + constructor; [apply wf_kw_sym; reflexivity|constructor].
@@ -262,6 +269,36 @@ Proof. intros G. unfold LexAdj.ne, Lex.eqc. rewrite (good_ne c "["), (good_ne c 
 Lemma safe_bop b : wf_bop b = true -> safe (kw (bop_text b)) (Some Lex.SP) = true.
 Proof. destruct b; try discriminate; intros _; reflexivity. Qed.
 
+(* call arguments *)
+Lemma nextc_pargs b xs n : nextc (pargs cf b xs) n = Some (if b then Lex.SP else if CallForm.space_call (space0 cf) then Lex.SP else "(").
+Proof. unfold pargs, gap_call, gap_sugar. destruct b; [reflexivity|]. destruct (CallForm.space_call (space0 cf)); reflexivity. Qed.
+(* a string or a table is compatible with whatever follows it *)
+Lemma adj_sugar_indep x nx nx' : sugarable [x] = true -> adj_ok (pexp x) nx = adj_ok (pexp x) nx'.
+Proof.
+  destruct x; try discriminate; intros _; [reflexivity|]. destruct fs as [|f fs]; [reflexivity|].
+  change (pexp (ETable (f :: fs))) with (kw "{" :: sp :: commas (map pexp (f :: fs)) ++ [sp; kw "}"]).
+  rewrite !adj_cons, !adj_app.
+  replace (nextc (commas (map pexp (f :: fs)) ++ [sp; kw "}"]) nx) with (nextc (commas (map pexp (f :: fs)) ++ [sp; kw "}"]) nx') by (destruct (commas (map pexp (f :: fs))); reflexivity).
+  reflexivity.
+Qed.
+Lemma adj_pargs sg args nx :
+  Forall (fun e => wfe e -> forall nx, okn e nx = true -> adj_ok (pexp e) nx = true) args -> wfl args false ->
+  adj_ok (pargs cf (sg && sugarable args) (commas (map pexp args))) nx = true.
+Proof.
+  intros H W2. apply wfl_Forall in W2. rewrite Forall_forall in *.
+  assert (E : Forall elem (map pexp args)).
+  { apply Forall_map. apply Forall_forall. intros x Hx. apply elem_pexp; [apply (W2 x Hx)|]. intros m M. apply H; [exact Hx|apply (W2 x Hx)|exact M]. }
+  unfold pargs. destruct (sg && sugarable args) eqn:S.
+  - apply andb_true_iff in S. destruct S as [_ S]. destruct args as [|x [|y r]]; [discriminate| |destruct x; discriminate].
+    cbn [map commas]. rewrite adj_cons. assert (Wx : wfe x) by (apply (W2 x); left; reflexivity). apply andb_true_iff. split.
+    + rewrite (nextc_pexp x nx Wx). unfold gap_sugar. assert (B := fc_nb x Wx).
+      destruct (CallForm.space_call (space0 cf)); exact B.
+    + rewrite (adj_sugar_indep x nx None S). apply H; [left; reflexivity|exact Wx|reflexivity].
+  - unfold gap_call. assert (G : adj_ok (kw "(" :: commas (map pexp args) ++ [kw ")"]) nx = true).
+    { rewrite adj_cons. apply andb_true_iff. split; [reflexivity|]. rewrite adj_app. apply andb_true_iff. split; [|reflexivity]. apply adj_commas; [exact E|reflexivity]. }
+    destruct (CallForm.space_call (space0 cf)); [|exact G]. cbn [app]. rewrite adj_cons, G. reflexivity.
+Qed.
+
 Theorem adj_pexp : forall e, wfe e -> forall nx, okn e nx = true -> adj_ok (pexp e) nx = true.
 Proof.
   induction e using exp_ind'; intros W nx K; cbn [Fmt0.pexp].
@@ -286,19 +323,16 @@ Proof.
         change (LexAdj.ne "[" (Some (fc e2)) && LexAdj.ne "=" (Some (fc e2)) = true). rewrite A, B. reflexivity.
       * rewrite adj_app. apply andb_true_iff. split; [|reflexivity]. apply IHe2; [exact W2|]. apply okn_of_clo. reflexivity.
   - (* f(args) *) destruct W as (W1 & P & W2). rewrite adj_app. apply andb_true_iff. split.
-    + apply IHe; [exact W1|]. apply okn_of_clop; [exact P|reflexivity].
-    + rewrite adj_cons. apply andb_true_iff. split; [reflexivity|]. rewrite adj_app. apply andb_true_iff. split; [|reflexivity].
-      apply adj_commas; [|reflexivity]. apply Forall_map. apply wfl_Forall in W2. rewrite Forall_forall in *. intros x Hx.
-      apply elem_pexp; [apply (W2 x Hx)|]. intros m M. apply H; [exact Hx|apply (W2 x Hx)|exact M].
+    + apply IHe; [exact W1|]. rewrite nextc_pargs. destruct (sg && sugarable args); [apply okn_of_clo; reflexivity|].
+      destruct (CallForm.space_call (space0 cf)); [apply okn_of_clo; reflexivity|apply okn_of_clop; [exact P|reflexivity]].
+    + apply adj_pargs; assumption.
   - (* o:m(args) *) destruct W as (W1 & P & N & W2). rewrite adj_app. apply andb_true_iff. split.
     + apply IHe; [exact W1|]. apply okn_of_clop; [exact P|reflexivity].
     + rewrite adj_cons. apply andb_true_iff. split.
       * destruct (wf_name_hd m N) as (c & r & E & I). subst m. destruct (start_facts c I) as (_ & _ & A).
         change (LexAdj.ne ":" (Some c) = true). unfold LexAdj.ne, Lex.eqc. rewrite A. reflexivity.
-      * rewrite adj_cons. apply andb_true_iff. split; [reflexivity|]. rewrite adj_cons. apply andb_true_iff. split; [reflexivity|].
-        rewrite adj_app. apply andb_true_iff. split; [|reflexivity].
-        apply adj_commas; [|reflexivity]. apply Forall_map. apply wfl_Forall in W2. rewrite Forall_forall in *. intros x Hx.
-        apply elem_pexp; [apply (W2 x Hx)|]. intros m0 M. apply H; [exact Hx|apply (W2 x Hx)|exact M].
+      * rewrite adj_cons. apply andb_true_iff. split; [|apply adj_pargs; assumption].
+        cbn [safe]. rewrite nextc_pargs. destruct (sg && sugarable args); [reflexivity|]. destruct (CallForm.space_call (space0 cf)); reflexivity.
   - (* unary *) destruct W as (W & F & U). assert (C : clo nx = true) by (eapply okn_clo; [|exact K]; reflexivity).
     rewrite adj_app. apply andb_true_iff. split; [|apply IHe; [exact W|apply okn_of_clo; exact C]].
     rewrite (nextc_pexp e nx W). destruct u; cbn [uop_toks]; try contradiction.
@@ -351,8 +385,8 @@ Fixpoint wfe1 (e : exp) : Prop :=
   | EName n => wf_name n
   | EField p n => wfe1 p /\ prefixlike p = true /\ wf_name n
   | EIndex p k => wfe1 p /\ prefixlike p = true /\ wfe1 k /\ isfield k = false
-  | ECall f args => wfe1 f /\ prefixlike f = true /\ all args false
-  | EMethod o m args => wfe1 o /\ prefixlike o = true /\ wf_name m /\ all args false
+  | ECall f sg args => wfe1 f /\ prefixlike f = true /\ all args false
+  | EMethod o m sg args => wfe1 o /\ prefixlike o = true /\ wf_name m /\ all args false
   | EUn u x => wfe1 x /\ isfield x = false /\ can (shape (EUn u x)) = true /\ match u with BNot => False | _ => True end
   | EBin b l r => wf_bop b = true /\ wfe1 l /\ isfield l = false /\ wfe1 r /\ isfield r = false
   | EParen x => wfe1 x /\ isfield x = false
@@ -386,12 +420,12 @@ Proof.
   induction y; intros W F L; try discriminate; cbn [fc]; try reflexivity.
   - cbn [wfe] in W. destruct s as [|c0 s']; [contradiction|]. destruct (wf_decimal_digit _ _ W) as [D _]. rewrite (number_rewrite_digit c0 s' D). cbn [hd0].
     destruct (Ascii.eqb c0 "-") eqn:Q; [|reflexivity]. apply Ascii.eqb_eq in Q. subst c0. discriminate.
-  - destruct (QuoteMore.choose st s); reflexivity.
+  - destruct (QuoteMore.choose sty s); reflexivity.
   - apply (prefix_fc (EName n) W eq_refl).
   - apply (prefix_fc (EField y n) W eq_refl).
   - apply (prefix_fc (EIndex y1 y2) W eq_refl).
-  - apply (prefix_fc (ECall y args) W eq_refl).
-  - apply (prefix_fc (EMethod y m args) W eq_refl).
+  - apply (prefix_fc (ECall y sg args) W eq_refl).
+  - apply (prefix_fc (EMethod y m sg args) W eq_refl).
   - destruct u; try reflexivity. cbn in L. discriminate.
   - destruct W as (_ & W & Fl & _). cbn [shape lmost_neg] in L. apply IHy1; assumption.
 Qed.
@@ -442,8 +476,7 @@ Proof. intros [A1 A2] [B1 B2]. split; [apply Forall_app; split; assumption|]. re
 Lemma gs_pexp e n : wfe e -> okn e n = true -> gs (pexp e) n.
 Proof. intros W K. split; [apply wf_toks_pexp; exact W|apply adj_pexp; assumption]. Qed.
 
-Variable c : cfg0.
-Hypothesis Hst : style0 c = st.
+Notation c := cf (only parsing).
 Definition eolc : ascii := if windows0 c then Lex.CR else Lex.LF.
 Lemma nextc_eol r n : nextc (eol c :: r) n = Some eolc. Proof. unfold eol, eolc. destruct (windows0 c); reflexivity. Qed.
 Lemma wf_eol : wf_tok (eol c). Proof. unfold eol. destruct (windows0 c); [right; left; reflexivity|left; reflexivity]. Qed.
@@ -516,11 +549,11 @@ Proof.
   split; [intros n; subst nm; reflexivity|]. intros n C. apply gs_cons; [exact W|apply clo_word; exact C|apply gs_nil].
 Qed.
 Definition wfes (es : list exp) : Prop := Forall (fun e => wfe e /\ isfield e = false) es.
-Lemma gs_pexps es m : wfes es -> clo m = true -> gs (Fmt0.pexps st es) m.
+Lemma gs_pexps es m : wfes es -> clo m = true -> gs (Fmt0.pexps cf es) m.
 Proof. intros W M. apply gs_commas; [|exact M]. apply Forall_map. eapply Forall_impl; [|exact W]. intros e [We _]. apply elemg_pexp. exact We. Qed.
 Lemma gs_pnames ns m : Forall wf_name ns -> clo m = true -> gs (pnames ns) m.
 Proof. intros W M. apply gs_commas; [|exact M]. apply Forall_map. eapply Forall_impl; [|exact W]. intros nm. apply elemg_name. Qed.
-Lemma first_pexps e es n : wfe e -> exists ch, nextc (Fmt0.pexps st (e :: es)) n = Some ch /\ nb ch = true.
+Lemma first_pexps e es n : wfe e -> exists ch, nextc (Fmt0.pexps cf (e :: es)) n = Some ch /\ nb ch = true.
 Proof. intros W. unfold Fmt0.pexps. cbn [map]. apply nextc_commas_g. apply elemg_pexp. exact W. Qed.
 Lemma first_pnames nm ns n : wf_name nm -> exists ch, nextc (pnames (nm :: ns)) n = Some ch /\ nb ch = true.
 Proof. intros W. unfold pnames. cbn [map]. apply nextc_commas_g. apply elemg_name. exact W. Qed.
@@ -554,16 +587,16 @@ with wfb (b : blk) : Prop :=
 Fixpoint wfis (l : list item) : Prop := match l with [] => True | x :: r => wfi x /\ wfis r end.
 Lemma wfb_eq is tl : wfb (Blk is tl) = (wfis is /\ wf_triv tl). Proof. reflexivity. Qed.
 
-Notation pexps := (Fmt0.pexps st).
+Notation pexps := (Fmt0.pexps cf).
 (* the first character of a statement *)
 Lemma first_pstmt s d n : wfs s -> exists ch, nextc (pstmt c d s) n = Some ch /\ nb ch = true.
 Proof.
   destruct s; intros W; try (eexists; split; [reflexivity|reflexivity]).
   - destruct es; eexists; split; reflexivity.
-  - cbn [pstmt]. rewrite Hst. destruct W as (N & _ & W & _). destruct vs as [|x vs]; [contradiction|]. inversion W as [|? ? [Wx _] _]; subst.
+  - cbn [pstmt]. destruct W as (N & _ & W & _). destruct vs as [|x vs]; [contradiction|]. inversion W as [|? ? [Wx _] _]; subst.
     destruct (first_pexps x vs None Wx) as (ch & E & B). exists ch. split; [|exact B].
     rewrite nextc_app_ne; [exact E|]. intros Q. rewrite Q in E. discriminate.
-  - cbn [pstmt]. rewrite Hst. destruct W as [W _]. exists (fc e). split; [apply nextc_pexp; exact W|apply fc_nb; exact W].
+  - cbn [pstmt]. destruct W as [W _]. exists (fc e). split; [apply nextc_pexp; exact W|apply fc_nb; exact W].
   - destruct es; eexists; split; reflexivity.
 Qed.
 
@@ -607,9 +640,13 @@ Proof.
   - spc. apply gs_word; [wfkw|reflexivity|apply eolish_word; exact E|apply gs_nil].
   - apply gs_eol. apply gs_block_end; assumption.
 Qed.
-Lemma gs_pparams ps va r n : Forall wf_name ps -> gs r n -> gs (pparams ps va ++ r) n.
+Lemma nextc_pparams ps va r n : exists ch, nextc (pparams c ps va ++ r) n = Some ch /\ LexAdj.word_follow (Some ch) = true.
+Proof. unfold pparams. destruct (CallForm.space_definition (space0 c)); eexists; split; reflexivity. Qed.
+Lemma gs_pparams ps va r n : Forall wf_name ps -> gs r n -> gs (pparams c ps va ++ r) n.
 Proof.
-  intros W H. unfold pparams. cbn [app]. apply gs_sym; [wfkw|reflexivity|]. rewrite <- app_assoc. apply gs_app; [|cbn [app]; apply gs_sym; [wfkw|reflexivity|exact H]].
+  intros W H. unfold pparams.
+  assert (G : gs (kw "(" :: (commas (map (fun n0 => [TIdent n0]) ps ++ (if va then [[kw "..."]] else [])) ++ [kw ")"]) ++ r) n); [|destruct (CallForm.space_definition (space0 c)); cbn [app]; [apply gs_sp; [eexists; split; reflexivity|exact G]|exact G]].
+  apply gs_sym; [wfkw|reflexivity|]. rewrite <- app_assoc. apply gs_app; [|cbn [app]; apply gs_sym; [wfkw|reflexivity|exact H]].
   cbn [app nextc]. apply gs_commas; [|reflexivity]. apply Forall_app. split; [apply Forall_map; eapply Forall_impl; [|exact W]; intros nm; apply elemg_name|].
   destruct va; [|constructor]. constructor; [|constructor]. exists ".". split; [reflexivity|]. split; [reflexivity|]. intros m _. apply gs_sym; [wfkw|reflexivity|apply gs_nil].
 Qed.
@@ -639,57 +676,57 @@ Proof.
   assert (H : forall s, Ps s); [|split; [exact H|]].
   - apply (stmt_ind' Ps Qs Is Bs); unfold Ps, Qs, Bs; intros; try (apply Hitem; assumption); try (apply Hblk; assumption).
     + (* local *) destruct H as (N & Wn & We). destruct ns as [|x ns']; [contradiction|]. inversion Wn as [|? ? Wx _]; subst.
-      destruct es as [|e es']; cbn [pstmt]; rewrite ?Hst.
+      destruct es as [|e es']; cbn [pstmt]; idtac.
       * word. apply gs_sp; [destruct (first_pnames x ns' n Wx) as (ch & E & B); exists ch; split; assumption|]. apply gs_pnames; [exact Wn|apply eolish_clo; exact H0].
       * inversion We as [|? ? [Wee _] _]; subst. word. apply gs_sp; [destruct (first_pnames x ns' None Wx) as (ch & E & B); exists ch; split; [|exact B]; rewrite nextc_app_ne; [exact E|intros Q; rewrite Q in E; discriminate]|].
         apply gs_app; [apply gs_pnames; [exact Wn|reflexivity]|]. spc. apply gs_sym; [wfkw|reflexivity|]. apply gs_sp; [apply (first_pexps e es' n Wee)|]. apply gs_pexps; [exact We|apply eolish_clo; exact H0].
-    + (* assignment *) destruct H as (N1 & N2 & Wv & We). cbn [pstmt]. rewrite Hst. destruct es as [|e es']; [contradiction|]. inversion We as [|? ? [Wee _] _]; subst.
+    + (* assignment *) destruct H as (N1 & N2 & Wv & We). cbn [pstmt]. destruct es as [|e es']; [contradiction|]. inversion We as [|? ? [Wee _] _]; subst.
       apply gs_app; [apply gs_pexps; [exact Wv|reflexivity]|]. spc. apply gs_sym; [wfkw|reflexivity|]. apply gs_sp; [apply (first_pexps e es' n Wee)|]. apply gs_pexps; [exact We|apply eolish_clo; exact H0].
-    + (* call *) destruct H as [W _]. cbn [pstmt]. rewrite Hst. apply gs_pexp; [exact W|apply okn_of_clo; apply eolish_clo; exact H0].
+    + (* call *) destruct H as [W _]. cbn [pstmt]. apply gs_pexp; [exact W|apply okn_of_clo; apply eolish_clo; exact H0].
     + (* do *) rewrite Fmt0Proof.p_do. word. apply gs_eol. apply gs_block_end; assumption.
-    + (* while *) destruct H0 as [[We _] Wb]. rewrite Fmt0Proof.p_while, Hst. word. apply gs_sp; [apply first_cond; exact We|].
+    + (* while *) destruct H0 as [[We _] Wb]. rewrite Fmt0Proof.p_while. word. apply gs_sp; [apply first_cond; exact We|].
       apply gs_app; [apply gs_pexp; [exact We|apply okn_of_clo; reflexivity]|]. spc. word. apply gs_eol. apply gs_block_end; assumption.
-    + (* repeat *) destruct H0 as [Wb [We _]]. rewrite Fmt0Proof.p_repeat, Hst. word. apply gs_eol. apply gs_app; [apply H; exact Wb|].
+    + (* repeat *) destruct H0 as [Wb [We _]]. rewrite Fmt0Proof.p_repeat. word. apply gs_eol. apply gs_app; [apply H; exact Wb|].
       apply gs_indent; [eexists; split; reflexivity|]. word. apply gs_sp; [exists (fc e); split; [apply nextc_pexp; exact We|apply fc_nb; exact We]|].
       apply gs_pexp; [exact We|apply okn_of_clo; apply eolish_clo; exact H1].
-    + (* if *) destruct H1 as ([We _] & Wt & Wr). rewrite Fmt0Proof.p_if, Hst. word. apply gs_sp; [apply first_cond; exact We|].
+    + (* if *) destruct H1 as ([We _] & Wt & Wr). rewrite Fmt0Proof.p_if. word. apply gs_sp; [apply first_cond; exact We|].
       apply gs_app; [apply gs_pexp; [exact We|apply okn_of_clo; reflexivity]|]. spc. word. apply gs_eol. apply gs_app; [apply H; exact Wt|].
       apply gs_app; [apply H0; exact Wr|]. apply gs_end. exact H2.
-    + (* numeric for *) destruct H0 as (Wx & [Wa _] & [Wb _] & Wst & Wbody). rewrite Fmt0Proof.p_numfor, Hst. word.
+    + (* numeric for *) destruct H0 as (Wx & [Wa _] & [Wb _] & Wst & Wbody). rewrite Fmt0Proof.p_numfor. word.
       apply gs_sp; [destruct (wf_name_hd _ Wx) as (cx & rx & Ex & Ix); rewrite Ex; eexists; split; [reflexivity|apply good_nb; apply start_good; exact Ix]|].
       apply gs_cons; [exact Wx|reflexivity|]. spc. apply gs_sym; [wfkw|reflexivity|]. apply gs_sp; [apply first_cond; exact Wa|].
       apply gs_app; [apply gs_pexp; [exact Wa|apply okn_of_clo; reflexivity]|]. apply gs_sym; [wfkw|reflexivity|]. apply gs_sp; [apply first_cond; exact Wb|].
       assert (T : gs (sp :: kw "do" :: eol c :: pblk c (S d) body ++ indent c d ++ [kw "end"]) n) by (spc; word; apply gs_eol; apply gs_block_end; assumption).
-      destruct st0 as [y|]; cbn [app].
+      destruct st as [y|]; cbn [app].
       * destruct Wst as [Wy _]. apply gs_app; [apply gs_pexp; [exact Wb|apply okn_of_clo; reflexivity]|]. apply gs_sym; [wfkw|reflexivity|]. apply gs_sp; [apply first_cond; exact Wy|].
         apply gs_app; [apply gs_pexp; [exact Wy|apply okn_of_clo; reflexivity]|exact T].
       * apply gs_app; [apply gs_pexp; [exact Wb|apply okn_of_clo; reflexivity]|exact T].
-    + (* generic for *) destruct H0 as (N1 & Wn & N2 & We & Wbody). rewrite Fmt0Proof.p_genfor, Hst. destruct ns as [|x ns']; [contradiction|]. inversion Wn as [|? ? Wx _]; subst.
+    + (* generic for *) destruct H0 as (N1 & Wn & N2 & We & Wbody). rewrite Fmt0Proof.p_genfor. destruct ns as [|x ns']; [contradiction|]. inversion Wn as [|? ? Wx _]; subst.
       destruct es as [|e es']; [contradiction|]. inversion We as [|? ? [Wee _] _]; subst.
       word. apply gs_sp; [destruct (first_pnames x ns' None Wx) as (ch & E & B); exists ch; split; [|exact B]; rewrite nextc_app_ne; [exact E|intros Q; rewrite Q in E; discriminate]|].
       apply gs_app; [apply gs_pnames; [exact Wn|reflexivity]|]. spc. word.
       apply gs_sp; [destruct (first_pexps e es' None Wee) as (ch & E & B); exists ch; split; [|exact B]; rewrite nextc_app_ne; [exact E|intros Q; rewrite Q in E; discriminate]|].
       apply gs_app; [apply gs_pexps; [exact We|reflexivity]|]. spc. word. apply gs_eol. apply gs_block_end; assumption.
     + (* function *) destruct H0 as (N & Wp & Wm & Wps & Wbody). rewrite Fmt0Proof.p_function. word.
-      assert (T : gs (pparams ps va ++ Fmt0Proof.fbody c d body) n) by (apply gs_pparams; [exact Wps|apply gs_fbody; assumption]).
+      assert (T : gs (pparams c ps va ++ Fmt0Proof.fbody c d body) n) by (apply gs_pparams; [exact Wps|apply gs_fbody; assumption]).
       apply gs_sp; [destruct p as [|x p']; [contradiction|]; inversion Wp as [|? ? Wx _]; subst; destruct (wf_name_hd x Wx) as (cx & rx & Ex & Ix); subst x;
                      exists cx; split; [destruct p'; reflexivity|apply good_nb; apply start_good; exact Ix]|].
       destruct m as [y|].
       * apply gs_dotted; [exact Wp|exact N|eexists; split; reflexivity|]. cbn [app].
         destruct (wf_name_hd y Wm) as (cy & ry & Ey & Iy). subst y. destruct (start_facts cy Iy) as (_ & _ & A).
         apply gs_sym; [wfkw|change (LexAdj.ne ":" (Some cy) = true); unfold LexAdj.ne, Lex.eqc; rewrite A; reflexivity|].
-        apply gs_cons; [exact Wm|reflexivity|exact T].
-      * cbn [app]. apply gs_dotted; [exact Wp|exact N|eexists; split; reflexivity|exact T].
+        apply gs_cons; [exact Wm|destruct (nextc_pparams ps va (Fmt0Proof.fbody c d body) n) as (ch & E1 & E2); rewrite E1; exact E2|exact T].
+      * cbn [app]. apply gs_dotted; [exact Wp|exact N|apply nextc_pparams|exact T].
     + (* local function *) destruct H0 as (Wx & Wps & Wbody). rewrite Fmt0Proof.p_localfunction. word. spc. word.
       apply gs_sp; [destruct (wf_name_hd _ Wx) as (cx & rx & Ex & Ix); rewrite Ex; eexists; split; [reflexivity|apply good_nb; apply start_good; exact Ix]|].
-      apply gs_cons; [exact Wx|reflexivity|]. apply gs_pparams; [exact Wps|apply gs_fbody; assumption].
-    + (* return *) destruct es as [|e es']; cbn [pstmt]; rewrite ?Hst.
+      apply gs_cons; [exact Wx|destruct (nextc_pparams ps va (Fmt0Proof.fbody c d body) n0) as (ch & E1 & E2); rewrite E1; exact E2|]. apply gs_pparams; [exact Wps|apply gs_fbody; assumption].
+    + (* return *) destruct es as [|e es']; cbn [pstmt]; idtac.
       * apply gs_word; [wfkw|reflexivity|apply eolish_word; exact H0|apply gs_nil].
       * inversion H as [|? ? [Wee _] _]; subst. word. apply gs_sp; [apply (first_pexps e es' n Wee)|]. apply gs_pexps; [exact H|apply eolish_clo; exact H0].
     + (* break *) cbn [pstmt]. apply gs_word; [wfkw|reflexivity|apply eolish_word; exact H0|apply gs_nil].
     + (* no else *) apply gs_nil.
     + (* else *) rewrite Fmt0Proof.p_else. apply gs_indent; [eexists; split; reflexivity|]. word. apply gs_eol. apply H. exact H0.
-    + (* elseif *) destruct H1 as ([We _] & Wt & Wr). rewrite Fmt0Proof.p_elseif, Hst. apply gs_indent; [eexists; split; reflexivity|]. word.
+    + (* elseif *) destruct H1 as ([We _] & Wt & Wr). rewrite Fmt0Proof.p_elseif. apply gs_indent; [eexists; split; reflexivity|]. word.
       apply gs_sp; [apply first_cond; exact We|]. apply gs_app; [apply gs_pexp; [exact We|apply okn_of_clo; reflexivity]|]. spc. word. apply gs_eol.
       apply gs_app; [apply H; exact Wt|apply H0; exact Wr].
   - intros b. destruct b as [is tl]. apply Hblk. apply Forall_forall. intros i _. destruct i as [l bl s t]. apply Hitem. apply H.
@@ -753,7 +790,7 @@ Proof.
     + destruct H0 as [A B]. split; [apply H; exact A|apply wfcond_ncond; exact B].
     + destruct H1 as (A & B & C). split; [apply wfcond_ncond; exact A|]. split; [apply H; exact B|apply H0; exact C].
     + destruct H0 as (A & B & C & D & E). split; [exact A|]. split; [apply wfcond_nexp; exact B|]. split; [apply wfcond_nexp; exact C|].
-      split; [destruct st0; cbn [option_map]; [apply wfcond_nexp; exact D|exact I]|apply H; exact E].
+      split; [destruct st; cbn [option_map]; [apply wfcond_nexp; exact D|exact I]|apply H; exact E].
     + destruct H0 as (A & B & C & D & E). split; [exact A|]. split; [exact B|]. split; [apply nexps_ne; exact C|]. split; [apply wfes_nexps; exact D|apply H; exact E].
     + destruct H0 as (A & B & C & D & E). split; [exact A|]. split; [exact B|]. split; [exact C|]. split; [exact D|apply H; exact E].
     + destruct H0 as (A & B & C). split; [exact A|]. split; [exact B|apply H; exact C].
@@ -767,19 +804,90 @@ Proof.
   - split; [exact H|]. intros b. destruct b as [is tl]. intros W. change (wfis1 is /\ wf_triv tl) in W. destruct W as [A B]. cbn [nblk]. change (wfis (map nitem is) /\ wf_triv tl).
     split; [|exact B]. apply HI; [|exact A]. apply Forall_forall. intros i _. destruct i as [l bl s t]. intros (X & Y & Z). cbn [nitem wfi]. split; [exact X|]. split; [apply H; exact Y|exact Z].
 Qed.
+(* ---- so does any pass that maps well-formed expressions to well-formed expressions of the same kind ... ---- *)
+Section SMapWf.
+Variable fe : exp -> exp.
+Hypothesis Hfe : forall e, wfe e -> wfe (fe e).
+Hypothesis Hfld : forall e, isfield (fe e) = isfield e.
+Lemma wfes_map es : wfes es -> wfes (map fe es).
+Proof. unfold wfes. intros H. apply Forall_map. eapply Forall_impl; [|exact H]. intros e [W F]. split; [apply Hfe; exact W|rewrite Hfld; exact F]. Qed.
+Lemma map_ne es : es <> [] -> map fe es <> []. Proof. destruct es; [contradiction|discriminate]. Qed.
+Lemma wfcond_fe e : wfcond e -> wfcond (fe e).
+Proof. intros [W F]. split; [apply Hfe; exact W|rewrite Hfld; exact F]. Qed.
+Theorem wfb_smap : (forall s, wfs s -> wfs (smap_s fe s)) /\ (forall b, wfb b -> wfb (smap_b fe b)).
+Proof.
+  assert (HI : forall is, Forall (fun i => wfi i -> wfi (smap_i fe i)) is -> wfis is -> wfis (map (smap_i fe) is)).
+  { induction 1 as [|i r Hi Hr IH]; intros W; [exact I|]. destruct W as [W1 W2]. cbn [map wfis]. split; [apply Hi; exact W1|apply IH; exact W2]. }
+  assert (H : forall s, wfs s -> wfs (smap_s fe s)).
+  - apply (stmt_ind' (fun s => wfs s -> wfs (smap_s fe s)) (fun r => wfr r -> wfr (smap_r fe r)) (fun i => wfi i -> wfi (smap_i fe i)) (fun b => wfb b -> wfb (smap_b fe b))); intros; cbn [smap_s smap_r smap_i smap_b wfs wfr wfi] in *.
+    + destruct H as (A & B & C). split; [exact A|]. split; [exact B|apply wfes_map; exact C].
+    + destruct H as (A & B & C & D). split; [apply map_ne; exact A|]. split; [apply map_ne; exact B|]. split; apply wfes_map; assumption.
+    + apply wfcond_fe. exact H.
+    + apply H. exact H0.
+    + destruct H0 as [A B]. split; [apply wfcond_fe; exact A|apply H; exact B].
+    + destruct H0 as [A B]. split; [apply H; exact A|apply wfcond_fe; exact B].
+    + destruct H1 as (A & B & C). split; [apply wfcond_fe; exact A|]. split; [apply H; exact B|apply H0; exact C].
+    + destruct H0 as (A & B & C & D & E). split; [exact A|]. split; [apply wfcond_fe; exact B|]. split; [apply wfcond_fe; exact C|].
+      split; [destruct st; cbn [option_map]; [apply wfcond_fe; exact D|exact I]|apply H; exact E].
+    + destruct H0 as (A & B & C & D & E). split; [exact A|]. split; [exact B|]. split; [apply map_ne; exact C|]. split; [apply wfes_map; exact D|apply H; exact E].
+    + destruct H0 as (A & B & C & D & E). split; [exact A|]. split; [exact B|]. split; [exact C|]. split; [exact D|apply H; exact E].
+    + destruct H0 as (A & B & C). split; [exact A|]. split; [exact B|apply H; exact C].
+    + apply wfes_map. exact H.
+    + exact I.
+    + exact I.
+    + apply H. exact H0.
+    + destruct H1 as (A & B & C). split; [apply wfcond_fe; exact A|]. split; [apply H; exact B|apply H0; exact C].
+    + destruct H0 as (A & B & C). split; [exact A|]. split; [apply H; exact B|exact C].
+    + change (wfis is /\ wf_triv tl) in H0. destruct H0 as [A B]. change (wfis (map (smap_i fe) is) /\ wf_triv tl). split; [apply HI; assumption|exact B].
+  - split; [exact H|]. intros b. destruct b as [is tl]. intros W. change (wfis is /\ wf_triv tl) in W. destruct W as [A B]. cbn [smap_b]. change (wfis (map (smap_i fe) is) /\ wf_triv tl).
+    split; [|exact B]. apply HI; [|exact A]. apply Forall_forall. intros i _. destruct i as [l bl s t]. intros (X & Y & Z). cbn [smap_i wfi]. split; [exact X|]. split; [apply H; exact Y|exact Z].
+Qed.
+End SMapWf.
+(* ---- ... and the call-form pass is one ---- *)
+Lemma isfield_cexp m o e : isfield (cexp m o e) = isfield e. Proof. destruct e; reflexivity. Qed.
+Lemma prefixlike_cexp m o e : prefixlike (cexp m o e) = prefixlike e. Proof. destruct e; reflexivity. Qed.
+Lemma fc_cexp m : forall e o, fc (cexp m o e) = fc e.
+Proof. induction e; intros o; cbn [cexp fc]; try reflexivity; auto. Qed.
+Lemma wfl_map_cexp m l fld : Forall (fun e => wfe e -> forall o, wfe (cexp m o e)) l -> wfl l fld -> wfl (map (cexp m false) l) fld.
+Proof.
+  induction 1 as [|a r Ha Hr IH]; intros W; [exact I|]. destruct W as [[Wa Fa] Wr]. cbn [map wfl].
+  split; [split; [apply Ha; exact Wa|rewrite isfield_cexp; exact Fa]|apply IH; exact Wr].
+Qed.
+Theorem wfe_cexp m : forall e, wfe e -> forall o, wfe (cexp m o e).
+Proof.
+  induction e using exp_ind'; intros W o; cbn [cexp]; try exact W.
+  - destruct W as (W & P & N). cbn [wfe]. split; [apply IHe; exact W|]. split; [rewrite prefixlike_cexp; exact P|exact N].
+  - destruct W as (W1 & P & W2 & F). cbn [wfe]. split; [apply IHe1; exact W1|]. split; [rewrite prefixlike_cexp; exact P|]. split; [apply IHe2; exact W2|rewrite isfield_cexp; exact F].
+  - destruct W as (W1 & P & W2). cbn [wfe]. split; [apply IHe; exact W1|]. split; [rewrite prefixlike_cexp; exact P|].
+    change (wfl (map (cexp m false) args) false). apply wfl_map_cexp; assumption.
+  - destruct W as (W1 & P & N & W2). cbn [wfe]. split; [apply IHe; exact W1|]. split; [rewrite prefixlike_cexp; exact P|]. split; [exact N|].
+    change (wfl (map (cexp m false) args) false). apply wfl_map_cexp; assumption.
+  - destruct W as (W & F & U). cbn [wfe]. split; [apply IHe; exact W|]. split; [rewrite isfield_cexp; exact F|]. rewrite fc_cexp. exact U.
+  - destruct W as (B & W1 & F1 & W2 & F2). cbn [wfe]. split; [exact B|]. split; [apply IHe1; exact W1|]. split; [rewrite isfield_cexp; exact F1|]. split; [apply IHe2; exact W2|rewrite isfield_cexp; exact F2].
+  - destruct W as (W & F). cbn [wfe]. split; [apply IHe; exact W|rewrite isfield_cexp; exact F].
+  - change (wfl (map (cexp m false) fs) true). apply wfl_map_cexp; assumption.
+  - destruct W as (W & F). cbn [wfe]. split; [apply IHe; exact W|rewrite isfield_cexp; exact F].
+  - destruct W as (N & W & F). cbn [wfe]. split; [exact N|]. split; [apply IHe; exact W|rewrite isfield_cexp; exact F].
+  - destruct W as (W1 & F1 & W2 & F2). cbn [wfe]. split; [apply IHe1; exact W1|]. split; [rewrite isfield_cexp; exact F1|]. split; [apply IHe2; exact W2|rewrite isfield_cexp; exact F2].
+Qed.
+Theorem wfb_norm0 p : wfb1 p -> wfb (norm0 c p).
+Proof.
+  intros W. unfold norm0, cprog. apply (proj2 (wfb_smap (cexp (callp0 c) false) (fun e We => wfe_cexp _ e We false) (isfield_cexp _ false))).
+  apply (proj2 wfb_nblk). exact W.
+Qed.
 (* C01 on L0, end to end: what the model of the formatter prints for a well-formed program lexes back to its tokens *)
 Theorem format0_relexes p : wfb1 p ->
-  lex_loop v (S (List.length (format0 c p))) (format0 c p) = Some (pprog c (nprog p)).
-Proof. intros W. unfold format0. apply pprog_relexes. apply (proj2 wfb_nblk). exact W. Qed.
+  lex_loop v (S (List.length (format0 c p))) (format0 c p) = Some (pprog c (norm0 c p)).
+Proof. intros W. unfold format0. apply pprog_relexes. apply wfb_norm0. exact W. Qed.
 End Lexical.
 
 (* non-vacuity: a program with a comment, a guarded double minus, a call with a number and a string, a nested block *)
 Definition v51 : ver := {| v52 := false; v53 := false; v54 := false; vluau := false; vjit := false |}.
-Definition cfg_example : cfg0 := {| windows0 := false; spaces0 := false; width0 := 4; style0 := QuoteMore.AutoDouble |}.
+Definition cfg_example : cfg0 := {| windows0 := false; spaces0 := false; width0 := 4; style0 := QuoteMore.AutoDouble; callp0 := CallForm.NoSingleTable; space0 := CallForm.SCalls |}.
 Definition prog_example : blk :=
   Blk [ Item [(false, str " a comment")] false
-          (SLocal [str "x"] [EUn Neg (EParen (EUn Neg (ECall (EName (str "f")) [ENum (str "12"); EStr (str "it's")])))]) (Some (str " trailing"));
-        Item [] true (SWhile (EBin Lt (EName (str "x")) (ENum (str "3"))) (Blk [Item [] false (SCall (EMethod (EName (str "o")) (str "m") [])) None] [(false, str " end of block")])) None ] [].
+          (SLocal [str "x"] [EUn Neg (EParen (EUn Neg (ECall (EName (str "f")) false [ENum (str "12"); EStr (str "it's")])))]) (Some (str " trailing"));
+        Item [] true (SWhile (EBin Lt (EName (str "x")) (ENum (str "3"))) (Blk [Item [] false (SCall (EMethod (EName (str "o")) (str "m") true [EStr (str "sugar")])) None] [(false, str " end of block")])) None ] [].
 Example example_is_well_formed : wfb1 v51 cfg_example prog_example.
 Proof.
   cbn. repeat split; try reflexivity; try discriminate; try (repeat constructor; fail);
@@ -788,5 +896,5 @@ Proof.
   constructor; [|constructor]. cbn. repeat split; try reflexivity; try (intros q; destruct q; eexists; vm_compute; reflexivity).
 Qed.
 Example example_lexes_back :
-  lex_loop v51 (S (List.length (format0 cfg_example prog_example))) (format0 cfg_example prog_example) = Some (pprog cfg_example (nprog prog_example)).
-Proof. apply (format0_relexes v51 eq_refl QuoteMore.AutoDouble cfg_example eq_refl); [discriminate|exact example_is_well_formed]. Qed.
+  lex_loop v51 (S (List.length (format0 cfg_example prog_example))) (format0 cfg_example prog_example) = Some (pprog cfg_example (norm0 cfg_example prog_example)).
+Proof. apply (format0_relexes v51 eq_refl cfg_example); [discriminate|exact example_is_well_formed]. Qed.
